@@ -150,6 +150,9 @@ def rand_fragment(r, depth=2):
   if k < 0.28:
     return "'" + body.replace("'", r.choice(['', "\\'"])) + "'"
   if k < 0.36:
+    if r.random() < 0.35:   # several lines, one of which looks like a full-line comment
+      body = r.choice(['a', '', 'x y']) + '\n' + r.choice(['', ' ', '\t']) + '#' + body.replace('"', '') + \
+          r.choice(['\n', '\nb', '\n/* c', ''])
     return '"""' + body.replace('"', r.choice(['', '"'])) + '"""'
   if k < 0.44:
     return '/*' + body.replace('*/', '*') + '*/'
